@@ -82,6 +82,111 @@ pub fn compare_day(
     Ok(info)
 }
 
+/// Ranges whose two ends carry a year denote one interval whatever their offsets are: offsets of any size
+/// (beyond a year, beyond the supported range, beyond what a date or a duration type holds) are decided by
+/// integer arithmetic on day numbers.
+fn far_offsets(ch: &mut Choices, case: &mut Case) -> Result<(), String> {
+    use chrono::Duration;
+    let md = |ch: &mut Choices| (1 + ch.draw(12), 1 + ch.draw(28));
+    let month = |m: u32| ["Jan", "Feb", "Mar", "Apr", "May", "Jun", "Jul", "Aug", "Sep", "Oct", "Nov", "Dec"][m as usize - 1];
+    let y1 = match ch.weighted(&[70, 10, 10, 10]) {
+        0 => 2015 + ch.draw(10) as i32,
+        1 => 1900 + ch.draw(3) as i32,
+        2 => 9996 + ch.draw(4) as i32,
+        _ => 1900 + ch.draw(8100) as i32,
+    };
+    let y2 = (y1 + [0, 0, 1, 1, 2, 7, 100][ch.draw(7) as usize]).min(9999);
+    let (m1, d1) = md(ch);
+    let (mut m2, mut d2) = md(ch);
+    if y1 == y2 && (m2, d2) <= (m1, d1) {
+        (m2, d2) = (12, 31);
+    }
+    let base1 = NaiveDate::from_ymd_opt(y1, m1, d1).unwrap();
+    let base2 = NaiveDate::from_ymd_opt(y2, m2, d2).unwrap();
+    // magnitude of an offset: small, beyond a year, beyond the supported range, next to the limits of the types
+    let magnitude = |ch: &mut Choices, base: NaiveDate, negative: bool| -> i64 {
+        let to_limit = if negative { (base - NaiveDate::MIN).num_days() } else { (NaiveDate::MAX - base).num_days() };
+        let to_range = if negative { (base - NaiveDate::from_ymd_opt(1900, 1, 1).unwrap()).num_days() } else { (NaiveDate::from_ymd_opt(9999, 12, 31).unwrap() - base).num_days() };
+        let near = |ch: &mut Choices, x: i64| x.saturating_add(ch.int(-9, 9)).max(1);
+        match ch.weighted(&[14, 14, 12, 12, 12, 12, 12, 12]) {
+            0 => ch.int(1, 40),
+            1 => ch.int(41, 1200),
+            2 => ch.pick(&[36_500i64, 365_000, 2_958_465, 3_000_000, 40_000_000, 200_000_000]) + ch.int(-2, 2),
+            3 => near(ch, to_range),
+            4 => near(ch, to_limit),
+            5 => near(ch, 106_751_991_167),
+            6 => i64::MAX - ch.int(0, 9),
+            _ => {
+                let x = ch.pick(&[1i64 << 31, 1 << 32, 1 << 53, 86_400_000, 95_745_000, 1 << 62]);
+                near(ch, x)
+            }
+        }
+    };
+    let offset = |ch: &mut Choices, base: NaiveDate, mostly_negative: bool| -> (String, i64) {
+        if ch.chance(20) {
+            return (String::new(), 0);
+        }
+        let negative = ch.chance(if mostly_negative { 75 } else { 25 });
+        let k = magnitude(ch, base, negative);
+        (format!(" {}{k} day{}", if negative { '-' } else { '+' }, if k == 1 { "" } else { "s" }), if negative { -k } else { k })
+    };
+    let (o1, k1) = offset(ch, base1, true);
+    let (o2, k2) = offset(ch, base2, false);
+    let text = format!(
+        "{}{y1} {} {d1}{o1}-{y2} {} {d2}{o2}{}",
+        ch.pick(&["", "", "24/7; ", "Mo-Su 10:00-12:00; ", "Mo-Fr 08:00-20:00 unknown; "]),
+        month(m1),
+        month(m2),
+        ch.pick(&["", " 10:00-12:00", " off", " unknown", " 22:00-26:00", " closed \"x\"", " 00:00-24:00"])
+    );
+    let holidays = gen_holidays(ch, y1);
+    case.key = text.clone();
+    let ast = match guard(|| opening_hours_syntax::parse(&text)) {
+        Err(p) => return Err(format!("parse panicked: {p}")),
+        Ok(Err(e)) => return Err(format!("constructed sentence rejected: {e}")),
+        Ok(Ok(ast)) => ast,
+    };
+    if let Some(tag) = model::undecided(&ast) {
+        case.exclude(format!("undecided:{tag}"));
+        return Ok(());
+    }
+    let oh = OpeningHours::parse(&text)
+        .map_err(|e| format!("OpeningHours::parse rejects what the syntax crate accepts: {e}"))?
+        .with_context(Context::default().with_holidays(holidays.holidays.clone()));
+    let first = NaiveDate::from_ymd_opt(1900, 1, 1).unwrap();
+    let last = NaiveDate::from_ymd_opt(9999, 12, 31).unwrap();
+    let mut probes = vec![first, first.succ_opt().unwrap(), last, last.pred_opt().unwrap()];
+    for (base, k) in [(base1, k1), (base2, k2)] {
+        for x in [Some(base), Duration::try_days(k).and_then(|k| base.checked_add_signed(k))].into_iter().flatten() {
+            for delta in -2..=2 {
+                if let Some(d) = x.checked_add_signed(Duration::days(delta)) {
+                    probes.push(d);
+                }
+            }
+        }
+    }
+    for _ in 0..4 {
+        probes.push(first + Duration::days(ch.int(0, (last - first).num_days())));
+        probes.push(base1 + Duration::days(ch.int(-800, 800)));
+    }
+    for d in probes {
+        if d < first || d > last {
+            continue;
+        }
+        case.units += 1;
+        compare_day(&oh, &ast, &holidays, d).map_err(|m| format!("{text}: {m}"))?;
+    }
+    let big = k1.unsigned_abs().max(k2.unsigned_abs());
+    case.label(match big {
+        0..=40 => "offsets_up_to_40_days",
+        41..=1200 => "offset_beyond_40_days",
+        1201..=200_000_100 => "offset_beyond_three_years",
+        _ => "offset_beyond_what_a_date_can_hold",
+    });
+    case.nontrivial = big > 40;
+    Ok(())
+}
+
 fn semantics(ch: &mut Choices, case: &mut Case) -> Result<(), String> {
     let base_year = if ch.chance(85) { 2020 } else { ch.pick(&[1900, 9990, 2096, 1995, 2396]) };
     let cfg = Cfg {
@@ -276,6 +381,15 @@ pub fn property() -> Property {
                 cases_quick: 300_000,
                 cases_thorough: 600_000,
                 max_choices: 440,
+            },
+            SubCheck {
+                name: "far_offsets",
+                rule: "constructed range with a year on both ends (`2019 Mar 5 -K days-2021 Jul 9 +K' days`, optionally after another rule, with a span / modifier) whose day offsets are small, beyond a year, beyond the supported range, or within 9 of: the distance to either end of the supported range, the distance to the first / last date chrono holds, the largest day count a duration holds (106 751 991 167), i64::MAX, 2^31, 2^32, 2^53, 2^62 — compared with the reference model, which decides such a range as one interval by integer arithmetic on day numbers, on the first and last two days of the range, the days around both ends before and after the offsets, and 8 drawn days; non-trivial = an offset beyond 40 days",
+                f: far_offsets,
+                text_f: Some(semantics_text),
+                cases_quick: 30_000,
+                cases_thorough: 300_000,
+                max_choices: 120,
             },
             SubCheck {
                 name: "sweep",
